@@ -1,5 +1,6 @@
 import PamsModel.Sim
 import PamsLemmas.MarketLemmas
+import PamsLemmas.RunnerLemmas
 
 namespace Pams.Sim
 open Pams Pams.Runner
@@ -921,5 +922,251 @@ theorem runSessions_ticks (po : Nat → PriceOps P) (ms : Markets) (i start : Na
     obtain ⟨h1, h2, h3, _⟩ := andThen_ok _ _ hok
     rw [h3, opsFor_append, nTicks_append, runSession_ticks _ _ _ _ _ _ _ _ h1, ih _ _ _ _ h2]
     simp only [totalSteps, Nat.add_mul]
+
+/-! ### while the session's execution flag is off nothing is matched -/
+
+def isFill : Rec P → Bool
+  | .fill _ => true
+  | _ => false
+
+/-- no fill was written, the flag is still off, the fill counter has not moved -/
+def SOut.Quiet (a : SOut P) (s : State P) : Prop :=
+  (∀ x ∈ a.recs, isFill x.2 = false) ∧ a.out.flag = false ∧ a.st.nfill = s.nfill ∧
+    (∀ x ∈ a.ops, x.2 ≠ Op.exec)
+
+theorem processRequest_quiet (po : Nat → PriceOps P) (t : Nat) (s : State P) (q : SReq P) :
+    (processRequest po t s false q).Quiet s := by
+  unfold processRequest SOut.Quiet
+  simp only
+  refine ⟨?_, (Runner.processRequest_flag_off t _).2, ?_, ?_⟩ <;> unfold resolve
+  · rcases hm : marketCall po s q with _ | ⟨s1, r1, o1⟩
+    · simp
+    · simp only [Bool.false_eq_true, ↓reduceIte]
+      unfold marketCall at hm
+      by_cases hc : q.isCancel = true
+      · rw [if_pos hc] at hm
+        by_cases hmk : (!q.marketOk) = true
+        · rw [if_pos hmk] at hm; cases hm
+        · rw [if_neg hmk] at hm
+          rcases hr : (s.mkt q.market).cancel (po q.market) q.cancelId with e | ⟨m', l⟩
+          · rw [hr] at hm; cases hm
+          · rw [hr] at hm
+            simp only [Option.some.injEq, Prod.mk.injEq] at hm
+            obtain ⟨_, rfl, _⟩ := hm
+            intro x hx; simp at hx; subst hx; rfl
+      · rw [if_neg hc] at hm
+        rcases hr : (s.mkt q.market).submit (po q.market) q.marketOk q.stamped q.req with e | ⟨m', l⟩
+        · rw [hr] at hm; cases hm
+        · rw [hr] at hm
+          simp only [Option.some.injEq, Prod.mk.injEq] at hm
+          obtain ⟨_, rfl, _⟩ := hm
+          intro x hx; simp at hx; subst hx; rfl
+  · rcases hm : marketCall po s q with _ | ⟨s1, r1, o1⟩
+    · rfl
+    · simp only [Bool.false_eq_true, ↓reduceIte]
+      exact (marketCall_tracks po s s1 q r1 o1 hm).2
+  · rcases hm : marketCall po s q with _ | ⟨s1, r1, o1⟩
+    · simp
+    · simp only [Bool.false_eq_true, ↓reduceIte]
+      unfold marketCall at hm
+      by_cases hc : q.isCancel = true
+      · rw [if_pos hc] at hm
+        by_cases hmk : (!q.marketOk) = true
+        · rw [if_pos hmk] at hm; cases hm
+        · rw [if_neg hmk] at hm
+          rcases hr : (s.mkt q.market).cancel (po q.market) q.cancelId with e | ⟨m', l⟩
+          · rw [hr] at hm; cases hm
+          · rw [hr] at hm
+            simp only [Option.some.injEq, Prod.mk.injEq] at hm
+            obtain ⟨_, _, rfl⟩ := hm
+            intro x hx; simp at hx; subst hx; simp
+      · rw [if_neg hc] at hm
+        rcases hr : (s.mkt q.market).submit (po q.market) q.marketOk q.stamped q.req with e | ⟨m', l⟩
+        · rw [hr] at hm; cases hm
+        · rw [hr] at hm
+          simp only [Option.some.injEq, Prod.mk.injEq] at hm
+          obtain ⟨_, _, rfl⟩ := hm
+          intro x hx; simp at hx; subst hx; simp
+
+theorem pure_quiet (s : State P) : (SOut.pure s false).Quiet s := by
+  refine ⟨?_, rfl, rfl, ?_⟩ <;> intro x hx <;> simp [SOut.pure] at hx
+
+theorem andThen_quiet (s : State P) (a : SOut P) (f : State P → Bool → SOut P) (ha : a.Quiet s)
+    (hf : ∀ s', s'.nfill = s.nfill → (f s' false).Quiet s') : (a.andThen f).Quiet s := by
+  unfold SOut.andThen
+  by_cases hok : a.out.ok = true
+  · rw [if_pos hok]
+    have hb := hf a.st ha.2.2.1
+    rw [ha.2.1]
+    refine ⟨?_, hb.2.1, by rw [hb.2.2.1, ha.2.2.1], ?_⟩
+    · intro x hx
+      rcases List.mem_append.mp hx with hx | hx
+      · exact ha.1 x hx
+      · exact hb.1 x hx
+    · intro x hx
+      rcases List.mem_append.mp hx with hx | hx
+      · exact ha.2.2.2 x hx
+      · exact hb.2.2.2 x hx
+  · rw [if_neg hok]; exact ha
+
+theorem consTr_quiet (s : State P) (a : SOut P) (e : Ev) (h : a.Quiet s) : (a.consTr e).Quiet s := h
+
+theorem processBatch_quiet (po : Nat → PriceOps P) (t : Nat) (s : State P) (qs : List (SReq P)) :
+    (processBatch po t s false qs).Quiet s := by
+  induction qs generalizing s with
+  | nil => exact pure_quiet s
+  | cons q qs ih =>
+    unfold processBatch
+    exact andThen_quiet s _ _ (processRequest_quiet po t s q) (fun s' _ => ih s')
+
+theorem hftRound_quiet (po : Nat → PriceOps P) (t : Nat) (cap : Int) (answer : Nat → List (SReq P))
+    (as : List Nat) (n : Nat) (s : State P) : (hftRound po t cap answer as n s false).Quiet s := by
+  induction as generalizing n s with
+  | nil => exact pure_quiet s
+  | cons a as ih =>
+    unfold hftRound
+    by_cases h1 : (n : Int) ≥ cap
+    · rw [if_pos h1]; exact pure_quiet s
+    · rw [if_neg h1]
+      by_cases h2 : (answer a).isEmpty = true
+      · simp only [h2, ↓reduceIte]
+        exact consTr_quiet s _ _ (ih n s)
+      · simp only [h2, Bool.false_eq_true, ↓reduceIte]
+        by_cases h3 : (answer a).any (fun q => q.owner ≠ a) = true
+        · rw [if_pos h3]
+          refine ⟨?_, rfl, rfl, ?_⟩ <;> intro x hx <;> simp at hx
+        · rw [if_neg h3]
+          exact consTr_quiet s _ _
+            (andThen_quiet s _ _ (processBatch_quiet po t s _) (fun s' _ => ih (n + 1) s'))
+
+theorem handle_quiet (po : Nat → PriceOps P) (t : Nat) (maxHft : Int) (bs : List (Nat × List (SReq P)))
+    (rts : List (RoundTape P)) (s : State P) : (handle po t maxHft bs rts s false).Quiet s := by
+  induction bs generalizing rts s with
+  | nil => exact pure_quiet s
+  | cons b bs ih =>
+    obtain ⟨a, batch⟩ := b
+    unfold handle
+    refine andThen_quiet s _ _ (processBatch_quiet po t s batch) (fun s1 _ => ?_)
+    refine andThen_quiet s1 _ _ ?_ (fun s2 _ => ih rts.tail s2)
+    by_cases hg : (rts.headD RoundTape.none).go = true
+    · rw [if_pos hg]; exact hftRound_quiet po t maxHft _ _ 0 s1
+    · rw [if_neg hg]; exact pure_quiet s1
+
+theorem stepBody_quiet (po : Nat → PriceOps P) (cfg : SessionCfg) (t : Nat) (s0 : State P)
+    (tape : StepTape P) : (stepBody po cfg t s0 false tape).Quiet s0 := by
+  unfold stepBody
+  by_cases hp : cfg.placement = true
+  · rw [if_pos hp]
+    by_cases hc : (collect false cfg.maxNormal tape.answer tape.perm 0).2.1 = true
+    · simp only [hc, ↓reduceIte]
+      exact handle_quiet po t cfg.maxHft _ _ _
+    · simp only [hc, Bool.false_eq_true, ↓reduceIte]
+      refine ⟨?_, rfl, rfl, ?_⟩ <;> intro x hx <;> simp at hx
+  · rw [if_neg hp]; exact pure_quiet _
+
+/-- no before-step handler switches the execution flag on -/
+def StepTape.NoResume (tp : StepTape P) : Prop := ∀ m, (tp.resume m).flag = false
+
+theorem stepBefore_flag_off (t : Nat) (resume : Nat → StepFx P) (hr : ∀ m, (resume m).flag = false)
+    (ms : Markets) (f : Nat → Market P) :
+    (stepBefore t resume ms f false).2.2.1 = false ∧
+      ∀ x ∈ (stepBefore t resume ms f false).2.2.2, x.2 ≠ Op.exec := by
+  induction ms generalizing f with
+  | nil => simp [stepBefore]
+  | cons m ms ih =>
+    unfold stepBefore
+    simp only [hr m.1, Bool.false_eq_true, ↓reduceIte]
+    refine ⟨(ih _).1, ?_⟩
+    intro x hx
+    simp only [List.mem_append, List.mem_map] at hx
+    rcases hx with (⟨y, _, rfl⟩ | ⟨y, _, rfl⟩) | hx
+    · simp
+    · simp
+    · exact (ih _).2 x hx
+
+theorem tickAll_quiet (po : Nat → PriceOps P) (fund : Nat → Option P) (ms : List Nat) (f : Nat → Market P) :
+    (∀ x ∈ (tickAll po fund ms f).2.1, isFill x.2 = false) ∧
+      ∀ x ∈ (tickAll po fund ms f).2.2, x.2 ≠ Op.exec := by
+  induction ms generalizing f with
+  | nil => simp [tickAll]
+  | cons m ms ih =>
+    unfold tickAll
+    constructor
+    · intro x hx
+      simp only [List.mem_append, List.mem_map] at hx
+      rcases hx with ⟨l, _, rfl⟩ | hx
+      · rfl
+      · exact (ih _).1 x hx
+    · intro x hx
+      rcases List.mem_cons.mp hx with rfl | hx
+      · simp
+      · exact (ih _).2 x hx
+
+theorem runStep_quiet (po : Nat → PriceOps P) (ms : Markets) (cfg : SessionCfg) (t : Nat) (s : State P)
+    (tape : StepTape P) (hr : tape.NoResume) : (runStep po ms cfg t s false tape).Quiet s := by
+  have hb := stepBefore_flag_off (P := P) t tape.resume hr ms s.mkt
+  have h2 := stepBody_quiet po cfg t { s with mkt := (stepBefore t tape.resume ms s.mkt false).2.1 } tape
+  have htk := tickAll_quiet po tape.fund (tickOrder ms)
+    (stepBody po cfg t { s with mkt := (stepBefore t tape.resume ms s.mkt false).2.1 } false tape).st.mkt
+  unfold runStep
+  simp only [hb.1]
+  split
+  · refine ⟨?_, h2.2.1, h2.2.2.1, ?_⟩
+    · intro x hx
+      rcases List.mem_append.mp hx with hx | hx
+      · exact h2.1 x hx
+      · exact htk.1 x hx
+    · intro x hx
+      simp only [List.mem_append] at hx
+      rcases hx with (hx | hx) | hx
+      · exact hb.2 x hx
+      · exact h2.2.2.2 x hx
+      · exact htk.2 x hx
+  · refine ⟨h2.1, h2.2.1, h2.2.2.1, ?_⟩
+    intro x hx
+    simp only [List.mem_append] at hx
+    rcases hx with hx | hx
+    · exact hb.2 x hx
+    · exact h2.2.2.2 x hx
+
+theorem StepTape.none_noResume : (StepTape.none : StepTape P).NoResume := by
+  intro m; rfl
+
+theorem runSteps_quiet (po : Nat → PriceOps P) (ms : Markets) (cfg : SessionCfg) (t : Nat) (s : State P)
+    (tapes : List (StepTape P)) (hr : ∀ tp ∈ tapes, tp.NoResume) (n : Nat) :
+    (runSteps po ms cfg t s false tapes n).Quiet s := by
+  induction n generalizing t s tapes with
+  | zero => exact pure_quiet s
+  | succ n ih =>
+    unfold runSteps
+    refine andThen_quiet s _ _ (runStep_quiet po ms cfg t s _ ?_)
+      (fun s' _ => ih (t + 1) s' tapes.tail (fun tp htp => hr tp (List.mem_of_mem_tail htp)))
+    cases tapes with
+    | nil => exact StepTape.none_noResume
+    | cons tp tps => exact hr tp (by simp)
+
+/-- **a session configured without order execution, in which no handler switches execution on,
+matches nothing**: no fill is written for any market, no matching round is run, the fill counter
+stands still — whatever the agents submit -/
+theorem runSession_quiet (po : Nat → PriceOps P) (ms : Markets) (k : Nat) (cfg : SessionCfg) (start : Nat)
+    (s : State P) (tapes : List (StepTape P)) (hx : cfg.execution = false)
+    (hr : ∀ tp ∈ tapes, tp.NoResume) : (runSession po ms k cfg start s tapes).Quiet s := by
+  have h := runSteps_quiet po ms cfg start
+    { s with mkt := setRunnings s.mkt (ms.map (fun m => (m.1, cfg.execution))) } tapes hr cfg.steps
+  unfold runSession
+  simp only [hx] at h ⊢
+  split
+  · refine ⟨h.1, h.2.1, h.2.2.1, ?_⟩
+    intro x hx'
+    simp only [List.mem_append, List.mem_map] at hx'
+    rcases hx' with ⟨y, _, rfl⟩ | hx'
+    · simp
+    · exact h.2.2.2 x hx'
+  · refine ⟨h.1, h.2.1, h.2.2.1, ?_⟩
+    intro x hx'
+    simp only [List.mem_append, List.mem_map] at hx'
+    rcases hx' with ⟨y, _, rfl⟩ | hx'
+    · simp
+    · exact h.2.2.2 x hx'
 
 end Pams.Sim
